@@ -120,4 +120,16 @@ theorem callers_match :
     saveCallers = ["initGroupChain", "*groupChain.AddGroup"] ∧
     removeCallers = ["*groupChain.removeFromCommonAncestor"] := by decide
 
+/-- Lock discipline (what makes the sequential theorems of `Props/C19.lean` apply to concurrent
+    callers): `AddGroup` takes the chain lock — released only on return — BEFORE it reads the parent
+    entry and `lastGroup` and calls `save`; `removeFromCommonAncestor`, the only caller of `remove`,
+    takes it before reading the height and calling `remove`; `save`/`remove` never touch the lock.
+    Only the duplicate-id check and the consensus check run outside the lock. -/
+theorem lock_discipline :
+    addLockOrder = ["Has group.Id", "CheckGroup", "Lock", "defer Unlock", "Has group.Header.Parent",
+                    "touch chain.lastGroup", "call chain.save"] ∧
+    ancestorLockOrder = ["Lock", "defer Unlock", "call chain.height", "call chain.getGroupByHeight",
+                         "call chain.remove"] ∧
+    saveLockOps = [] ∧ removeLockOps = [] := by decide
+
 end Rangers.Props.C19Facts
